@@ -2,7 +2,7 @@
 # verify_seed.sh <ID> <k>: confirm a sub-agent's seeded change in its scratch worktree /tmp/wt/<ID>
 # (demo OK unpatched; with patch: 388 unit tests pass and demo fails), then store it under /verif/seeded/<ID>_<k>/
 ID=$1; K=$2; WT=/tmp/wt/$ID; OUT=/tmp/wtout/$ID
-PROP=${ID:0:3}; IDX=$K; [ "${ID:3}" = "b" ] && IDX=$((K+2)); [ "${ID:3}" = "c" ] && IDX=$((K+4)); [ "${ID:3}" = "e" ] && IDX=$((K+4)); [ "${ID:3}" = "f" ] && IDX=$((K+6)); [ "${ID:3}" = "g" ] && IDX=$((K+8)); [ "${ID:3}" = "h" ] && IDX=$((K+10)); [ "${ID:3}" = "i" ] && IDX=$((K+12))
+PROP=${ID:0:3}; IDX=$K; [ "${ID:3}" = "b" ] && IDX=$((K+2)); [ "${ID:3}" = "c" ] && IDX=$((K+4)); [ "${ID:3}" = "e" ] && IDX=$((K+4)); [ "${ID:3}" = "f" ] && IDX=$((K+6)); [ "${ID:3}" = "g" ] && IDX=$((K+8)); [ "${ID:3}" = "h" ] && IDX=$((K+10)); [ "${ID:3}" = "i" ] && IDX=$((K+12)); [ "${ID:3}" = "j" ] && IDX=$((K+14))
 cd $WT || exit 2
 git checkout -q -- . 
 if ! git apply --check $OUT/patch$K.diff 2>/dev/null; then echo "$ID/$K: patch does not apply"; exit 1; fi
